@@ -217,6 +217,11 @@ class TypeDB:
             return TNone
         return TUnion(non_none + ([TNone] if has_none else []))
 
+    def owner_module(self, owner: str) -> str:
+        """module of a (possibly nested) class given by its qualified name"""
+        ci = self.w.get_class(owner)
+        return ci.module if ci is not None else owner.rsplit(".", 1)[0]
+
     def common_base(self, a: str, b: str) -> str:
         if a.startswith("*") or b.startswith("*"):
             return "*"
@@ -315,7 +320,7 @@ class TypeDB:
         elif key in self.extra_fields:
             t = self.parse_ty(self.extra_fields[key])
         else:
-            mod = owner.rsplit(".", 1)[0]
+            mod = self.owner_module(owner)
             f = None
             ci = self.w.get_class(owner)
             for x in ci.fields:
@@ -403,7 +408,7 @@ class TypeDB:
         for f in fields:
             if not f.init:
                 if f.default is not None:
-                    vals[f.name] = it.eval(f.default, Frame(f.owner.rsplit(".", 1)[0]))
+                    vals[f.name] = it.eval(f.default, Frame(self.owner_module(f.owner)))
                 elif f.default_factory is not None:
                     vals[f.name] = self.call_factory(it, f, fr)
                 continue
@@ -412,7 +417,7 @@ class TypeDB:
             elif f.name in kwargs:
                 vals[f.name] = kwargs.pop(f.name)
             elif f.default is not None:
-                vals[f.name] = it.eval(f.default, Frame(f.owner.rsplit(".", 1)[0]))
+                vals[f.name] = it.eval(f.default, Frame(self.owner_module(f.owner)))
             elif f.default_factory is not None:
                 vals[f.name] = self.call_factory(it, f, fr)
             else:
@@ -439,7 +444,7 @@ class TypeDB:
             return it.mk_seq(ty, [])
         if isinstance(e, ast.Name) and e.id == "set":
             return SV(ty, z3.K(ty.k.sort(), z3.BoolVal(False)))
-        fn = it.eval(e, Frame(f.owner.rsplit(".", 1)[0]))
+        fn = it.eval(e, Frame(self.owner_module(f.owner)))
         return it.call_value(fn, [], {}, fr)
 
     # ------------------------------------------------------------------ equality of heap objects
